@@ -12,6 +12,7 @@
 From Coq Require Import List NArith ZArith String Bool.
 From Verif Require Import Base.Hex Model.Layout Model.LayoutPrims Gen.PacketLayouts
   Proofs.C04_layout Proofs.C04_prims Proofs.C04.
+From Verif Require Import Model.AvailCmds Proofs.C04_cmds.
 Import ListNotations.
 Open Scope string_scope.
 
@@ -77,3 +78,38 @@ Example C04_nonvacuous :
   in_dom LP lp_dom dec_packet_Handshake (mkctx 47 false) hs_value /\
   enc_L LP enc_packet_Handshake (mkctx 47 false) hs_value = Ok (hx "2f096c6f63616c686f737463dd02").
 Proof. exact C04_nonvacuous_handshake. Qed.
+Print Assumptions C04_nonvacuous.
+
+(* AvailableCommands node tables (Model/AvailCmds.v; the type itself is outside the layout fragment).  For the node subset
+   the reference decoder covers (root / literal / argument nodes, parsers bool / integer / string, executable flag,
+   redirects, no custom suggestions), for every protocol version number and every well-formed table of ANY size
+   (indices and counts below 2^31, names at most 262144 bytes, property bytes of the shape the parser prescribes):
+   the reference decoder inverts the reference encoder, equal bytes mean equal tables, and the canonical graph of the
+   decoded table is the canonical graph of the encoded one.  Statements about the model; the Go encoder / decoder are tied
+   to it by the differential run only (Check/C04.v, judge_cmds). *)
+Theorem C04_cmds_table_roundtrip :
+  forall ver tbl root, wf_table tbl root = true -> decode_wire ver (encode_table ver tbl root) = Some (tbl, root).
+Proof. exact decode_encode_table. Qed.
+Print Assumptions C04_cmds_table_roundtrip.
+
+Theorem C04_cmds_bytes_equal_graph_equal :
+  forall ver fuel t1 r1 t2 r2, wf_table t1 r1 = true -> wf_table t2 r2 = true ->
+  encode_table ver t1 r1 = encode_table ver t2 r2 -> canon fuel t1 r1 = canon fuel t2 r2.
+Proof. exact bytes_equal_graph_equal. Qed.
+Print Assumptions C04_cmds_bytes_equal_graph_equal.
+
+Theorem C04_cmds_decoded_graph :
+  forall ver fuel tbl root t' r', wf_table tbl root = true ->
+  decode_wire ver (encode_table ver tbl root) = Some (t', r') -> canon fuel t' r' = canon fuel tbl root.
+Proof. exact decoded_graph_is_encoded_graph. Qed.
+Print Assumptions C04_cmds_decoded_graph.
+
+(* Non-vacuity: a well-formed table whose node 2 ("target", with an integer argument below it) is reachable only through
+   the redirect of node 1 ("alias") and is not a descendant of the root; it round-trips at 1.20.4 (numeric parser ids)
+   and at 1.8 (parser names). *)
+Example C04_cmds_nonvacuous :
+  wf_table sample_table 0%N = true /\
+  decode_wire 765%Z (encode_table 765%Z sample_table 0%N) = Some (sample_table, 0%N) /\
+  decode_wire 47%Z (encode_table 47%Z sample_table 0%N) = Some (sample_table, 0%N).
+Proof. exact sample_ok. Qed.
+Print Assumptions C04_cmds_nonvacuous.
